@@ -20,23 +20,36 @@ RULE = ("kind sim: a parent screen (1-5 plates, plate-uniform masks, observation
         "canonical description.")
 THEOREMS = {
     "C12_atomic_invariant": "every screen reached from a constructed screen by any history of reveal/mask/unmask/save+load (any variant) has a plate-uniform mask",
-    "C12_atomic_invariant_lifecycle": "the same for both halves of any hold-out split of a constructed screen",
+    "C12_atomic_invariant_lifecycle": "the same for both halves of any hold-out split",
     "C12_history_never_mixed": "no operation of such a history is ever refused for a mixed plate (error tag 2)",
-    "C12_reveal_exact": "reveal = Ok: new mask = old mask OR (plate id in ids), row by row; sample, plate, treatments, stored observation bits, plate ids, plate mapping unchanged",
-    "C12_reveal_monotone": "reveal = Ok: every row observed before is observed after",
-    "C12_reveal_defined": "on a constructed screen whose selected values are not all zero and NaN-free, reveal returns Ok (any variant)",
-    "C12_unobserved_drop": "reveal = Ok: n_unobserved_plates before = after + number of distinct plate ids of the screen named in ids that were unobserved; n_plates unchanged",
-    "C12_newly_revealed_as_ids": "that number equals the number of distinct elements of ids that are ids of unobserved plates of the screen",
+    "C12_plate_uniform_meaning": "plate_uniform rows <-> rows with the same plate name have the same mask",
+    "C12_constructed_plates_encoded": "a constructed screen's plate ids are the encoding of its plate names",
+    "C12_reveal_exact": "reveal = Ok: every new row is the old row with mask := old mask OR (its plate id in ids); sample, plate, treatments, stored "
+                        "observation bits, plate ids, plate mapping unchanged",
+    "C12_reveal_mask": "the row-by-row mask equation new = old | (plate id in ids)",
+    "C12_reveal_monotone": "reveal = Ok: row i keeps its conditions/plate/value and, if observed before, is observed after",
+    "C12_reveal_defined": "on a constructed screen whose selected values are not all zero and NaN-free, reveal returns Ok",
+    "C12_step_defined": "mask / unmask / save+load are always defined on a constructed screen; reveal exactly when its guards pass (call sites passing "
+                        "mappings need them valid)",
+    "C12_repaired_lifecycle_defined": "repaired construction: the same along any lifecycle from a split, without side conditions",
+    "C12_unobserved_drop": "reveal = Ok: n_unobserved_plates before = after + |newly_revealed|; n_plates and the set of plate ids unchanged",
+    "C12_newly_revealed_meaning": "newly_revealed s ids is duplicate-free and contains exactly the screen's plate ids that occur in ids and were not observed",
+    "C12_unique_plate_ids_meaning": "screen.plates ranges over the duplicate-free set of plate ids of the rows",
+    "C12_plate_observed_meaning": "Plate.is_observed <-> every row of the plate is observed",
+    "C12_counters_add_up": "n_observed_plates + n_unobserved_plates = n_plates",
     "C12_ctor_rejects_mixed": "constructor with observations and mask, two rows of one plate with different mask => Err 2",
-    "C12_ctor_err2_only_if_mixed": "constructor Err 2 => such two rows exist",
+    "C12_ctor_err2_only_if_mixed": "constructor Err 2 => observations and mask were given and such two rows exist",
     "C12_ctor_obs_without_mask": "observations without mask => all rows observed, values stored verbatim",
-    "C12_ctor_no_obs": "no observations => all rows unobserved (values zero); mask without observations => Err 7",
-    "C12_set_observed_exact": "set_observed = Ok: selected rows get the given values in order (or the single broadcast value) and mask true; unselected rows and all other fields unchanged",
+    "C12_ctor_no_obs": "no observations => all rows unobserved with value 0, conditions verbatim",
+    "C12_ctor_mask_without_obs": "mask without observations => Err 7",
+    "C12_set_observed_exact": "set_observed = Ok: the k-th selected row gets the k-th given value (or the single broadcast value) and mask true; "
+                              "unselected rows and all other fields unchanged",
     "C12_set_observed_refuses": "selection length <> size => Err 10; value count neither the number selected nor 1 => Err 11",
-    "C12_reveal_refuses_zero": "selected values all zero (incl. no row selected) => Err 8",
+    "C12_reveal_refuses_zero": "selected values all zero (+0.0 / -0.0; incl. no row selected) => Err 8",
     "C12_reveal_refuses_unknown": "ids that name no plate of the screen (incl. the empty list) => Err 8",
-    "C12_reveal_refuses_nan": "selected values contain NaN => Err (8 if they are otherwise... all zero is impossible with a NaN, so 9)",
-    "C12_mask_unmask_exact": "mask / unmask = Ok: all rows unobserved / observed, everything else unchanged",
+    "C12_reveal_refuses_nan": "selected values contain a NaN => Err 9",
+    "C12_mask_exact": "mask = Ok: all rows unobserved, everything else unchanged",
+    "C12_unmask_exact": "unmask = Ok: all rows observed, everything else unchanged",
     "C12_save_load_exact": "save+load = Ok: rows (incl. mask and values), plate ids, plate mapping unchanged",
 }
 ASSUMPTIONS = [
